@@ -110,6 +110,65 @@ def catalogue(prop):
     return list(getattr(mod, "MUTANTS", []))
 
 
+def _patch_overlay(root, patch):
+    """{relpath: patched source} for a unified diff against `root`, or None when it does not apply."""
+    import shutil, subprocess, tempfile
+    files = re.findall(r"^\+\+\+ b/(\S+)", open(patch).read(), re.M)
+    tmp = tempfile.mkdtemp(prefix="mxsa_bp_")
+    try:
+        for f in files:
+            os.makedirs(os.path.dirname(os.path.join(tmp, f)), exist_ok=True)
+            shutil.copy(os.path.join(root, f), os.path.join(tmp, f))
+        r = subprocess.run(["patch", "-p1", "-s", "-d", tmp, "-i", os.path.abspath(patch)], capture_output=True, text=True)
+        if r.returncode != 0:
+            return None
+        return {f: open(os.path.join(tmp, f)).read() for f in files}
+    finally:
+        shutil.rmtree(tmp, ignore_errors=True)
+
+
+def _run_benign(args):
+    """One behaviour-preserving variant: the property's rules must stay silent."""
+    root, prop, kind, ref, base_keys = args
+    from . import rules as _rules
+    _rules.load()
+    try:
+        if kind == "variant":
+            from .benign import VARIANTS
+            m = VARIANTS[ref]
+            name = m.id
+            ov = build_overlay(Repo(root), m)
+        else:
+            name = os.path.relpath(ref, os.path.dirname(os.path.dirname(ref)))
+            ov = _patch_overlay(root, ref)
+            if ov is None:
+                return (name, "stale", [])
+        ctx = Ctx(repo=Repo(root, overlay=ov), tier="quick")
+        keys, errors = _finding_keys(ctx, prop)
+    except AnalysisError as e:
+        return (locals().get("name", str(ref)), "stale", [str(e)[:120]])
+    new = sorted(k for k in keys if k not in base_keys)
+    if new or errors:
+        return (name, "fired", ["%s %s" % (k[0], k[1]) for k in new] + [e[:120] for e in errors])
+    return (name, "silent", [])
+
+
+def run_benign(prop, ctx, base_keys, jobs):
+    import glob
+    from .benign import VARIANTS
+    here = os.path.dirname(os.path.dirname(os.path.abspath(__file__)))
+    patches = sorted(glob.glob(os.path.join(here, "benign_patches", "*", "*.diff")))
+    args = [(ctx.repo.root, prop, "variant", i, base_keys) for i in range(len(VARIANTS))] + \
+           [(ctx.repo.root, prop, "patch", p_, base_keys) for p_ in patches]
+    with ProcessPoolExecutor(max_workers=jobs) as ex:
+        out = list(ex.map(_run_benign, args))
+    fired = [o for o in out if o[1] == "fired"]
+    return {"behaviour_preserving_variants": len(out),
+            "silent": sum(1 for o in out if o[1] == "silent"),
+            "not_applicable": sum(1 for o in out if o[1] == "stale"),
+            "fired": [{"id": o[0], "reports": o[2]} for o in fired]}
+
+
 def run_for(prop, ctx, jobs=None):
     cat = catalogue(prop)
     base_keys, _ = _finding_keys(ctx, prop)
@@ -129,8 +188,10 @@ def run_for(prop, ctx, jobs=None):
     for mid, st, why, _ in erronly:
         errors.append("self-test: mutant %s only produced an analysis error (%s)" % (mid, why))
     by_id = {m.id: m for m in cat}
+    benign = run_benign(prop, ctx, base_keys, jobs)
     return {
         "errors": errors,
+        "false_alarm_test": benign,
         "selftest": {
             "mutants_total": len(cat),
             "mutants_built": len(cat) - len(stale),
